@@ -17,7 +17,7 @@ RULE = ('a generator AST is printed with the minimum of parentheses the document
         'distinct by hash of the printed text')
 ASSUMPTIONS = ['the printer (cgv/gast.py) implements the precedences documented in README.md',
                'inside a word, juxtaposition and a parenthesised sequence are one node kind']
-MIN_EVALS = {'quick': 5000, 'thorough': 100000}
+MIN_EVALS = {'quick': 50000, 'thorough': 500000}
 NSHARDS = 64
 
 LEAVES = [lit('a'), lit('b', 'd'), nt('X'), cmd('c')]
@@ -142,10 +142,10 @@ def rand_grammar(r):
 
 def make_jobs(tier, seed):
     jobs = []
-    n = 5 if tier == 'quick' else 6
+    n = 6 if tier == 'quick' else 7
     for s in range(NSHARDS):
         jobs.append(('exh', n, s, seed))
-    nrand = 6400 if tier == 'quick' else 128000
+    nrand = 12800 if tier == 'quick' else 256000
     for s in range(NSHARDS):
         jobs.append(('rand', seed * 1000003 + s, nrand // NSHARDS))
     return jobs
